@@ -305,7 +305,7 @@ theorem execQueue_no_crash (conn : Nat) (q : List Queued) :
         | none => simp only; exact ih _ _ _ _ _ _ hq
         | some cmd =>
           simp only
-          have hnc := runCmd_no_crash { c with now := c.now + 1000, impl := impls.head? } s conn x.dbRef true cmd hq
+          have hnc := runCmd_no_crash { c with now := c.now + 1000, impl := impls.head? } s conn (x.ref c.q (s.session conn).dbRef) true cmd hq
           simp only [hnc]
           exact ih _ _ _ _ _ _ hq
 
